@@ -1,6 +1,7 @@
 package props
 
 import (
+	"bytes"
 	"fmt"
 	"sync"
 
@@ -182,6 +183,8 @@ func c20CheckType(c c20Type) engine.Result {
 	return res
 }
 
+var c20OrigCodecs = []string{"hvc1", "avc1.64001f", "", "avc", "hev1.2.4.L120", "avc3", "dvhe", "mp4a.40.2", "AVC1"}
+
 // c20TagBody is a well-formed body for the tags with a defined decoder, three opaque bytes otherwise.
 func c20TagBody(tag int) []byte {
 	switch tag {
@@ -328,6 +331,18 @@ func c20BodiesBuild(fam int, thorough bool) []c20Body {
 			out = append(out, c20Body{append([]byte{}, dovi[:n]...), c20Expect{}})
 		}
 		out = append(out, c20Body{[]byte("CUEI"), c20Expect{}}, c20Body{[]byte("IVOD"), c20Expect{}})
+		// the four bytes D O V I somewhere behind another format_identifier (additional identification
+		// info), at every offset 1..8, and twice
+		for off := 1; off <= 8; off++ {
+			for _, lead := range []string{"HDMVxxxx", "CUEI\x00\x00\x00\x00", "\x00\x00\x00\x00\x00\x00\x00\x00", "DOVDOVDO", "OVIDOVID"} {
+				b := append([]byte(lead[:off]), dovi...)
+				if bytes.HasPrefix(b, dovi) {
+					continue
+				}
+				out = append(out, c20Body{b, c20Expect{}}, c20Body{append(append([]byte{}, b...), 0x01, 0x02), c20Expect{}})
+			}
+		}
+		out = append(out, c20Body{[]byte("DOVIDOVI"), c20Expect{dovi: true}})
 	case famDolbyVision:
 		for prof := 0; prof < 128; prof++ {
 			for lvl := 0; lvl < 32; lvl++ {
@@ -444,12 +459,21 @@ func c20CheckDesc(res *engine.Result, via string, d psi.PmtDescriptor, T int, fa
 	// Dolby Vision codec
 	if T == 0xB0 {
 		if own {
-			if got := d.DecodeDolbyVisionCodec("hvc1"); got != b.exp.dvCodec {
-				res.Failf(sig("DecodeDolbyVisionCodec"), "body % x: got %q want %q", b.body, got, b.exp.dvCodec)
+			// the string is a function of profile and level alone, whatever the caller says the original codec is
+			for _, orig := range c20OrigCodecs {
+				if got := d.DecodeDolbyVisionCodec(orig); got != b.exp.dvCodec {
+					res.Failf(sig("DecodeDolbyVisionCodec"), "body % x (original codec argument %q): got %q want %q", b.body, orig, got, b.exp.dvCodec)
+					break
+				}
 			}
 		}
-	} else if got := d.DecodeDolbyVisionCodec("hvc1"); got != "" {
-		res.Failf(sig("DecodeDolbyVisionCodec-neutral"), "tag %#x body % x: got %q", T, b.body, got)
+	} else {
+		for _, orig := range c20OrigCodecs[:2] {
+			if got := d.DecodeDolbyVisionCodec(orig); got != "" {
+				res.Failf(sig("DecodeDolbyVisionCodec-neutral"), "tag %#x body % x: got %q", T, b.body, got)
+				break
+			}
+		}
 	}
 }
 
@@ -522,7 +546,7 @@ func init() {
 			},
 			&engine.Enum[c20DescCase]{
 				Name: "descriptors",
-				Rule: "case = (body family, tag) for all 6 families x all 256 tags; Check runs every body of the family (bitrate: <=2-bit patterns+stride grid [thorough: all 2^21] x reserved bits; ISO-639: 64 codes x 256 audio types; TTML: 3 ext bytes x 8 languages x 256 purpose bytes; registration: DOVI + all single-byte deviations + short bodies; Dolby Vision: 128 profiles x 32 levels x flag bits x versions; opaque bodies of length 0..6). Decoders whose tag equals the descriptor tag are only called on bodies of that tag's own family (well-formed); all other tag-dispatched decoders must return their neutral value. non-trivial = each distinct (tag, body)",
+				Rule: "case = (body family, tag) for all 6 families x all 256 tags; Check runs every body of the family (bitrate: <=2-bit patterns+stride grid [thorough: all 2^21] x reserved bits; ISO-639: 64 codes x 256 audio types; TTML: 3 ext bytes x 8 languages x 256 purpose bytes; registration: DOVI + all single-byte deviations + short bodies + DOVI behind 5 other leads at every offset 1..8; Dolby Vision codec string asked with 9 different original-codec arguments; Dolby Vision: 128 profiles x 32 levels x flag bits x versions; opaque bodies of length 0..6). Decoders whose tag equals the descriptor tag are only called on bodies of that tag's own family (well-formed); all other tag-dispatched decoders must return their neutral value. non-trivial = each distinct (tag, body)",
 				Gen: func(r *engine.Run, emit func(c20DescCase)) {
 					for f := 0; f < famCount; f++ {
 						for t := 0; t < 256; t++ {
